@@ -130,7 +130,7 @@ func VerifRingZero() {
 //
 //verif:harness prop=C14 name=buffered_vs_queue unwind=24
 func VerifBufferedSeq() {
-	is := vSmall("initial", -1, 3)
+	is := vSmall("initial", -1, 5) // up to 5: with a buffer size of 1 a RemoveFront then shrinks a ring that still holds elements
 	bs := vSmall("bsize", -1, 3)
 	b := NewBuffered[int](is, bs)
 	var model []*int
